@@ -99,7 +99,7 @@ pub fn decode_class_case(d: &[u8]) -> props::daemon::ClassCase {
         leap,
         interval,
         age_ns: age,
-        prefix: c.u8() % 4,
+        prefix: c.u8() % 7,
     }
 }
 
